@@ -338,7 +338,7 @@ def run_case(case: dict):
         for i, (h, p, f) in enumerate(case["store"]):
             fs = f"2019-01-{i + 1:02d}T00:00:00+00:00"
             try:
-                conn.execute("INSERT INTO known_hosts VALUES (?,?,?,?,?)", (h, p, f, fs, fs))
+                conn.execute("INSERT INTO known_hosts (hostname, port, fingerprint, first_seen, last_seen) VALUES (?,?,?,?,?)", (h, p, f, fs, fs))
             except (sqlite3.Error, UnicodeError):
                 continue
             model[(h, p)] = [f, fs]
@@ -461,14 +461,14 @@ def run_busy_open(case):
         dbpath = Path(d) / "tofu.db"
         TOFUDatabase(dbpath)
         conn = _real_connect(str(dbpath))
-        conn.executemany("INSERT INTO known_hosts VALUES (?,?,?,?,?)",
+        conn.executemany("INSERT INTO known_hosts (hostname, port, fingerprint, first_seen, last_seen) VALUES (?,?,?,?,?)",
                          [(f"keep{i}.example", 1965, FPS[i % 3], "2019-01-01T00:00:00+00:00", "2019-01-01T00:00:00+00:00") for i in range(3)])
         conn.commit()
         conn.close()
         before = read_table(dbpath)
         holder = _real_connect(str(dbpath), isolation_level=None)
         holder.execute("BEGIN EXCLUSIVE")
-        holder.execute("INSERT INTO known_hosts VALUES ('writer.example', 1965, ?, '2020-01-01T00:00:00+00:00', '2020-01-01T00:00:00+00:00')", (FPS[0],))
+        holder.execute("INSERT INTO known_hosts (hostname, port, fingerprint, first_seen, last_seen) VALUES ('writer.example', 1965, ?, '2020-01-01T00:00:00+00:00', '2020-01-01T00:00:00+00:00')", (FPS[0],))
         err = None
         try:
             TOFUDatabase(dbpath)  # waits for the busy timeout (about 5 s of real time), then fails or succeeds
@@ -511,7 +511,7 @@ def run_cli_import(case):
         dbpath = dbdir / "tofu.db"
         TOFUDatabase(dbpath)
         conn = _real_connect(str(dbpath))
-        conn.executemany("INSERT INTO known_hosts VALUES (?,?,?,?,?)",
+        conn.executemany("INSERT INTO known_hosts (hostname, port, fingerprint, first_seen, last_seen) VALUES (?,?,?,?,?)",
                          [(f"keep{i}.example", 1965, FPS[i % 3], "2019-01-01T00:00:00+00:00", "2019-01-01T00:00:00+00:00") for i in range(3)])
         conn.commit()
         conn.close()
@@ -559,7 +559,7 @@ def run_roundtrip_big(case):
         dbpath = Path(d) / "tofu.db"
         db = TOFUDatabase(dbpath)
         conn = _real_connect(str(dbpath))
-        conn.executemany("INSERT INTO known_hosts VALUES (?,?,?,?,?)",
+        conn.executemany("INSERT INTO known_hosts (hostname, port, fingerprint, first_seen, last_seen) VALUES (?,?,?,?,?)",
                          [(f"h{i}.example", 1965 + i % 3, FPS[i % 3], f"2019-01-01T00:{i // 60 % 60:02d}:{i % 60:02d}+00:00",
                            f"2021-01-01T00:{i // 60 % 60:02d}:{i % 60:02d}+00:00") for i in range(case["roundtrip"])])
         conn.commit()
@@ -593,7 +593,7 @@ def run_interleaved(case):
         conn = _real_connect(str(dbpath))
         rows = [(f"keep{i}.example", 1965, FPS[2], "2019-01-01T00:00:00+00:00", "2019-01-01T00:00:00+00:00") for i in range(3)]
         rows.append(("conflict.example", 1965, FPS[0], "2019-02-01T00:00:00+00:00", "2019-02-01T00:00:00+00:00"))
-        conn.executemany("INSERT INTO known_hosts VALUES (?,?,?,?,?)", rows)
+        conn.executemany("INSERT INTO known_hosts (hostname, port, fingerprint, first_seen, last_seen) VALUES (?,?,?,?,?)", rows)
         conn.commit()
         conn.close()
         toml = Path(d) / "in.toml"
@@ -660,7 +660,7 @@ def run_big(case: dict):
         dbpath = Path(d) / "tofu.db"
         db = TOFUDatabase(dbpath)
         conn = _real_connect(str(dbpath))
-        conn.executemany("INSERT INTO known_hosts VALUES (?,?,?,?,?)",
+        conn.executemany("INSERT INTO known_hosts (hostname, port, fingerprint, first_seen, last_seen) VALUES (?,?,?,?,?)",
                          [(f"old{i}.example", 1965, FPS[i % 3], "2019-01-01T00:00:00+00:00", "2019-01-01T00:00:00+00:00")
                           for i in range(case["existing"])])
         conn.commit()
